@@ -234,6 +234,7 @@ class DoublyLinkedList(Iterable[_T]):
         node.next_node = self.head
 
         self.head = node
+        self.size += 1
 
     def move_to_back(self, node: DoublyLinkedListNode[_T]):
         """
@@ -261,6 +262,7 @@ class DoublyLinkedList(Iterable[_T]):
         node.prev_node = self.tail
 
         self.tail = node
+        self.size += 1
 
     def rotate(self, front_to_back: bool = True):
         """
@@ -281,7 +283,7 @@ class DoublyLinkedList(Iterable[_T]):
             False will move last element to the beginning of the list.
         """
 
-        if self.head is None or self.head == self.tail:
+        if self.head is None or self.head is self.tail:
             return
 
         if front_to_back:
@@ -307,7 +309,7 @@ class DoublyLinkedList(Iterable[_T]):
         :param after: node after this node will be inserted
         """
 
-        if node == after:
+        if node is after:
             return
 
         self.remove(node)
@@ -320,3 +322,4 @@ class DoublyLinkedList(Iterable[_T]):
         node.next_node = after.next_node
         node.prev_node = after
         after.next_node = node
+        self.size += 1
